@@ -500,6 +500,26 @@ theorem scan_iteration_sees {α : Type} [Inhabited α] (store cur : Store α) (i
     Flax.NnxLoop.scan_iteration_sees store cur i carr pas [] [] si xs parts [] hwf hs hx hp rfl
   exact ⟨ins, arrs, h1, h2, by simpa using h3⟩
 
+/-- **broadcast leaves are consumed first-in first-out.**  `_scan_split_in` appends the `in_axes=None` non-graph leaves to
+`broadcast_arrays` in argument order and `_scan_merge_in` pops them from the *left*: with any number of broadcast
+leaves — here two, `a` then `b`, around a scanned array — the traced function receives them in argument order, which is
+what the reference `scanArrIn` says (`scan_iteration_sees` covers any number of them: it is stated for arbitrary
+argument lists). -/
+theorem scan_broadcast_leaves_fifo {α : Type} [Inhabited α] (a b x : Arr α) (k : Int) (carr : Option (Arr α)) :
+    scanMergeIn [.hole, .arrX k x, .hole] [] [] [a, b] carr [] = .ok ([], [a, x, b]) ∧
+    mapX (scanArrIn carr 0) [(.ax .bcast, a), (.ax .bcast, b)] = .ok [a, b] := by
+  constructor <;> rfl
+
+/-- closed counter-example for popping from the right (`broadcast_arrays.pop()`): two broadcast leaves of different
+value would reach the function swapped — `[b, a]` is not what the reference hands over -/
+theorem scan_broadcast_lifo_counterexample :
+    let a : Arr Int := exScalar 1
+    let b : Arr Int := exScalar 2
+    let lifo : List (Arr Int) → List (Arr Int) := fun ba => [ba.getLastD a, ba.dropLast.getLastD a]
+    lifo [a, b] = [b, a] ∧
+    optX (mapX (scanArrIn (α := Int) none 0) [(.ax .bcast, a), (.ax .bcast, b)]) = some [a, b] ∧
+    lifo [a, b] ≠ [a, b] := by decide
+
 /-- **The scan of `ScanFn` is the reference loop, in either direction** (induction on the list of indices in
 processing order, for `reverse = false` and `reverse = true`): carry Variables and the array carry threaded from the
 iteration processed before, axis Variables sliced at the index processed, broadcast Variables constant, the same final
@@ -695,6 +715,26 @@ example : exView (nnxScan exScanIn (.uniform (.ax (.axis 0))) none true 1 exScan
 example : exView (scanSpecN 2 true .none .none [.ax (.axis 0)] exScanBody
     ([Prefix.sa [(.ofType "Param", .axis 0), (.everything, .carry)]].zip exScanArgs) exStore)
     = some ([(0, exVec [10, 20]), (1, exScalar 33)], [some (exVec [23, 3])]) := by decide
+
+/-! non-vacuity with TWO broadcast leaves of different value next to a scanned array and a carried node:
+`f(m, s, x, t): m.c += 10·s + t + x; return m.c` -/
+
+def exScan2Args : List (Arg Int) :=
+  [.node [⟨["c"], 1, ⟨["BatchStat", "Variable"], none⟩⟩], .arr (exScalar 1), .arr (exVec [5, 7]), .arr (exScalar 2)]
+
+def exScan2Body : Body Int := fun st arrs =>
+  match st, arrs with
+  | [(1, c)], [s, x, t] =>
+    .ok ([(1, exScalar (c.getD [] + 10 * s.getD [] + t.getD [] + x.getD []))],
+         [.arr (exScalar (c.getD [] + 10 * s.getD [] + t.getD [] + x.getD []))])
+  | _, _ => .error (.body "KeyError")
+
+example : exView (nnxScan (.perArg [.ax .carry, .ax .bcast, .ax (.axis 0), .ax .bcast])
+    (.perArg [.ax .carry, .ax (.axis 0)]) none false 1
+    (fun st arrs => match exScan2Body st arrs with
+      | .ok (st', outs) => .ok (st', Out.argRef 0 :: outs)
+      | .error e => .error e) exScan2Args [(1, exScalar 3)])
+    = some ([(1, exScalar 39)], [none, some (exVec [20, 39])]) := by decide
 
 /-! ## 5. `nnx.grad` / `nnx.value_and_grad`  (partial: A-AD) -/
 
